@@ -246,7 +246,10 @@ func collectTVarFTypeWithSet(visited SSet, recs []string, ft FType) []string {
 		}, recs), (func() []string {
 			return slice.New[string]()
 		}), (func() []string {
-			recurseIn := (func(_r0 FType) []string { return collectTVarFTypeWithSet(visited, slice.PushLast(rkey, recs), _r0) })
+			recurseIn := (func() func(_r0 FType) []string {
+				_p1 := slice.PushLast(rkey, recs)
+				return func(_r0 FType) []string { return collectTVarFTypeWithSet(visited, _p1, _r0) }
+			})()
 			ri := lookupRecInfo(rt)
 			fres := frt.Pipe(frt.Pipe(ri.Fields, (func(_r0 []NameTypePair) []FType {
 				return slice.Map(func(_v1 NameTypePair) FType {
@@ -339,7 +342,10 @@ func smrsToBlock(srs StringMatchRules) []Block {
 		swv := _v13.Value
 		return frt.Pipe(slice.Map(func(_v1 StringMatchRule) Block {
 			return _v1.Body
-		}, swv.Literals), (func(_r0 []Block) []Block { return slice.PushLast(swv.VarRule.Body, _r0) }))
+		}, swv.Literals), (func() func(_r0 []Block) []Block {
+			_p0 := swv.VarRule.Body
+			return func(_r0 []Block) []Block { return slice.PushLast(_p0, _r0) }
+		})())
 	case StringMatchRules_SCaseWD:
 		swd := _v13.Value
 		return frt.Pipe(slice.Map(func(_v2 StringMatchRule) Block {
@@ -404,7 +410,10 @@ func collectTVarExpr(expr Expr) []string {
 			return collB(bl)
 		case ReturnableExpr_RMatchExpr:
 			me := _v16.Value
-			return frt.Pipe(frt.Pipe(mrsToBlocks(me.Rules), (func(_r0 []Block) []string { return slice.Collect(collB, _r0) })), (func(_r0 []string) []string { return slice.Append(recurse(me.Target), _r0) }))
+			return frt.Pipe(frt.Pipe(mrsToBlocks(me.Rules), (func(_r0 []Block) []string { return slice.Collect(collB, _r0) })), (func() func(_r0 []string) []string {
+				_p0 := recurse(me.Target)
+				return func(_r0 []string) []string { return slice.Append(_p0, _r0) }
+			})())
 		default:
 			panic("Union pattern fail. Never reached here.")
 		}
@@ -459,7 +468,10 @@ func transTVFTypeWithSet(visited SSet, recs []string, transTV func(TypeVar) FTyp
 		}, recs), (func() FType {
 			return ftp
 		}), (func() FType {
-			recurseIn := (func(_r0 FType) FType { return transTVFTypeWithSet(visited, slice.PushLast(rkey, recs), transTV, _r0) })
+			recurseIn := (func() func(_r0 FType) FType {
+				_p1 := slice.PushLast(rkey, recs)
+				return func(_r0 FType) FType { return transTVFTypeWithSet(visited, _p1, transTV, _r0) }
+			})()
 			return frt.Pipe(transRecType(recurseIn, rt), New_FType_FRecord)
 		}))
 	case FType_FUnion:
